@@ -43,20 +43,39 @@ def execute(sc, mutant=None):
         def ms():
             return int(round(s.now * 1000))
 
-        def seen(pk):
-            if pk.port == PORT:
-                ev.append({'e': 'ans', 'sess': dev.session if dev.link is not None else 0,
-                           'data': [HDR] + list(pk.data), 't': ms()})
-        cf.packet_received.add_callback(seen)          # runs after _check_for_answers
+        # The answer check is bracketed: 'ansb' is logged on entry (no yield point lies between the
+        # entry and the snapshot of the pending patterns, so it fixes which request the packet
+        # answers), 'ans' on exit (the matched timer is cancelled and the pattern deleted: from here
+        # on the request counts as answered).  Logging only after the call attributed the packet
+        # to requests registered while the dispatcher was parked inside Timer.cancel().
+        cbs = cf.packet_received.callbacks
+        ci = [i for i, cb in enumerate(cbs) if getattr(cb, '__name__', '') in ('_check_for_answers', 'check')]
+        if len(ci) != 1:
+            raise common.MachineryError('cannot find the _check_for_answers callback')
+        inner = cbs[ci[0]]
+
+        def checked(pk):
+            mine = pk.port == PORT
+            if mine:
+                sess = dev.session if dev.link is not None else 0
+                ev.append({'e': 'ansb', 'sess': sess, 'data': [HDR] + list(pk.data), 't': ms()})
+            try:
+                inner(pk)
+            finally:
+                if mine:
+                    ev.append({'e': 'ans', 'sess': sess, 'data': [HDR] + list(pk.data), 't': ms()})
+        cbs[ci[0]] = checked
 
         # every transmission, including those on closed / superseded link objects
         def on_event(kw):
             if kw.get('port') != PORT:
                 return
             if kw['e'] == 'up':
-                ev.append({'e': 'tx', 'req': kw['data'][0], 'sess': kw['session'], 't': kw['t']})
+                ev.append({'e': 'tx', 'req': kw['data'][0], 'sess': kw['session'], 't': kw['t'], 'strict': strict})
             elif kw['e'] in ('up_closed', 'up_stale'):
-                ev.append({'e': 'tx', 'req': kw['data'][0], 'sess': 0, 't': kw['t']})
+                # handed to a link object that is already closed: a closed driver transmits nothing
+                # (RadioDriver leaves it in the dead out_queue, UsbDriver returns, SimDriver drops)
+                ev.append({'e': 'drop', 'req': kw['data'][0], 't': kw['t']})
         orig_event = w.event
 
         def event(**kw):
@@ -164,6 +183,18 @@ def systematic():
                     out.append({'ops': [('open',), ('send', 1), ('send', 2), ('sleep', dt), (how,), ('sleep', 0.02), ('open',),
                                         ('send', p2), ('sleep', 0.05), ('inject', (1, 2, 9)), ('sleep', 0.8)],
                                 'reliable': False, 'policy': (['fifo', 'random0', 'pct0', 'random'][seed], seed)})
+    # races found through the design spec (Retry.tla, invariants ChainKept / NoCrossSession):
+    # (a) the dispatcher parked inside _check_for_answers across close + open + a new request for
+    #     the same pattern; (b) a resend in flight (timer thread parked inside send_packet) across
+    #     link error + open.  Needs particular schedules: many PCT / random seeds each.
+    for seed in range(150):
+        for kind in ('pct0', 'random0'):
+            out.append({'ops': [('open',), ('send', 3), ('inject', (3,)), ('close',), ('open',), ('send', 3), ('sleep', 1.0)],
+                        'reliable': False, 'policy': (kind, seed)})
+    for seed in range(100):
+        for kind in ('pct', 'random'):
+            out.append({'ops': [('open',), ('send', 1), ('sleep', 0.2), ('lerr',), ('sleep', 0.0), ('open',), ('sleep', 0.5)],
+                        'reliable': False, 'policy': (kind, seed)})
     return out
 
 
@@ -176,34 +207,38 @@ def _send_packet_variant(variant):
         def send_packet(pk, expected_reply=(), resend=False, timeout=0.2):
             cf._send_lock.acquire()
             try:
-                if cf.link is not None:
-                    needs = cf.link.needs_resending or variant == 'retry_on_reliable'
+                link = cf.link
+                pats = cf._answer_patterns
+                if link is not None:
+                    needs = link.needs_resending or variant == 'retry_on_reliable'
                     if len(expected_reply) > 0 and not resend and needs:
                         pattern = (pk.header,) + expected_reply
-                        t = Timer(timeout, lambda: cf._no_answer_do_retry(pk, pattern))
-                        t.pk = pk
-                        t.tmo = timeout
-                        cf._answer_patterns[pattern] = t
+                        t = Timer(timeout, lambda: cf._no_answer_do_retry(pk, pattern, timeout))
+                        t.request = pk
+                        pats[pattern] = t
                         t.start()
                     elif resend:
                         pattern = expected_reply
-                        cur = cf._answer_patterns.get(pattern)
-                        ok = cur is not None and (variant == 'no_identity' or getattr(cur, 'pk', None) is pk)
+                        cur = pats.get(pattern)
+                        ok = cur is not None and (variant == 'no_identity' or getattr(cur, 'request', None) is pk)
                         if ok:
                             if variant != 'no_rearm':
-                                tmo = 0.2 if variant == 'default_timeout' else getattr(cur, 'tmo', timeout)
-                                t = Timer(tmo, lambda: cf._no_answer_do_retry(pk, pattern))
-                                t.pk = pk
-                                t.tmo = getattr(cur, 'tmo', timeout)
-                                cf._answer_patterns[pattern] = t
+                                tmo = 0.2 if variant == 'default_timeout' else timeout
+                                t = Timer(tmo, lambda: cf._no_answer_do_retry(pk, pattern, timeout))
+                                t.request = pk
+                                pats[pattern] = t
                                 t.start()
-                                if variant == 'double_arm':
-                                    t2 = Timer(tmo, lambda: cf._no_answer_do_retry(pk, pattern))
-                                    t2.pk = pk
+                                if variant == 'double_arm' and not getattr(pk, '_dbl', False):
+                                    pk._dbl = True      # once per request: unbounded doubling would only exhaust OS threads
+                                    t2 = Timer(tmo, lambda: cf._no_answer_do_retry(pk, pattern, timeout))
+                                    t2.request = pk
                                     t2.start()
                         elif variant != 'resend_after_answer':
                             return
-                    cf.link.send_packet(pk)
+                    if variant == 'reread_link':
+                        cf.link.send_packet(pk)       # pre-fix: the link is looked at again
+                    else:
+                        link.send_packet(pk)
                     cf.packet_sent.call(pk)
             finally:
                 cf._send_lock.release()
@@ -220,12 +255,25 @@ def _send_packet_variant(variant):
             for i, cb in enumerate(cbs):
                 if getattr(cb, '__name__', '') == '_check_for_answers':
                     cbs[i] = check
+        if variant == 'reread_patterns':
+            def check2(pk):
+                data = (pk.header,) + tuple(pk.data)
+                m = [p for p in list(cf._answer_patterns) if len(p) <= len(data) and p == data[:len(p)]]
+                if m:
+                    p = max(m, key=len)
+                    cf._answer_patterns[p].cancel()
+                    del cf._answer_patterns[p]          # pre-fix: dictionary read again after cancel()
+            check2.__name__ = 'check'
+            cbs = cf.packet_received.callbacks
+            for i, cb in enumerate(cbs):
+                if getattr(cb, '__name__', '') == '_check_for_answers':
+                    cbs[i] = check2
     return install
 
 
 MUTANTS = {k: _send_packet_variant(k) for k in
            ('retry_on_reliable', 'no_identity', 'no_rearm', 'default_timeout', 'double_arm',
-            'resend_after_answer', 'cancel_shortest')}
+            'resend_after_answer', 'cancel_shortest', 'reread_link', 'reread_patterns')}
 
 
 def _mut_stale_patterns(cf):
@@ -301,8 +349,8 @@ def replay_behaviour(beh):
 
         def event(**kw):
             r = orig_event(**kw)
-            if r.get('port') == PORT and r['e'] in ('up', 'up_closed', 'up_stale'):
-                wire.append((r['data'][0], r.get('session', 0) if r['e'] == 'up' else 0))
+            if r.get('port') == PORT and r['e'] == 'up':      # hand-offs to a closed link are not on the wire
+                wire.append((r['data'][0], r.get('session', 0)))
             return r
         w.event = event
 
@@ -343,7 +391,20 @@ def replay_behaviour(beh):
                 ok = rec is not None and rec.pending is not None and not rec.finished
                 if ok:
                     s.step_thread(rec)          # the wait returns (deadline reached)
-            elif name == 'TResend':
+            elif name == 'TResendDecide':
+                # _send_lock acquired, link and patterns looked at, next timer armed: the thread is
+                # parked in Timer.start() (or has finished when nothing is to be sent)
+                rec = timer_rec(args[0])
+                ok = rec is not None and not rec.finished
+                while ok and not rec.finished:
+                    runnable, _ = s.enabled()
+                    if rec not in runnable:
+                        ok = False
+                        break
+                    if rec.pending is not None and rec.pending.kind == 'thread.start':
+                        break
+                    s.step_thread(rec)
+            elif name == 'TResendTx':
                 rec = timer_rec(args[0])
                 ok = rec is not None and not rec.finished
                 while ok and not rec.finished:
@@ -352,9 +413,20 @@ def replay_behaviour(beh):
                         ok = False
                         break
                     s.step_thread(rec)
-            elif name == 'Answer':
+            elif name == 'AnswerBegin':
+                # the dispatcher takes the packet and parks in Timer.cancel() (event.set) when a
+                # pattern matched, otherwise it finishes the check
                 d = args[0]
                 dev.emit(sd.reply(PORT, 0, bytes(d[1:])))
+                disp = s.by_name.get('_IncomingPacketHandler#0')
+                for _ in range(50):
+                    runnable, _ = s.enabled()
+                    if disp not in runnable:
+                        break
+                    if disp.pending is not None and disp.pending.kind == 'event.set':
+                        break
+                    s.step_thread(disp)
+            elif name == 'AnswerEnd':
                 disp = s.by_name.get('_IncomingPacketHandler#0')
                 for _ in range(50):
                     runnable, _ = s.enabled()
@@ -418,7 +490,7 @@ def main(tier, seed, replay=None):
     out.add_tlc(cfg, r)
     r2 = tlc.check('MC_Retry.tla', 'MC_Retry_reliable.cfg', timeout=1200)
     out.add_tlc('MC_Retry_reliable.cfg', r2)
-    for b in ('resendAfterAnswer', 'defaultTimeout', 'noIdentity', 'stalePatterns'):
+    for b in ('resendAfterAnswer', 'defaultTimeout', 'noIdentity', 'stalePatterns', 'rereadLink', 'rereadPatterns'):
         rb = tlc.expect_violation('MC_Retry.tla', 'MC_Retry_bug_%s.cfg' % b, timeout=1200)
         out.sensitivity['spec:' + b] = 'refuted (%s) after %d states' % (rb.violated, rb.distinct)
 
@@ -450,8 +522,10 @@ def main(tier, seed, replay=None):
     out.samples = [{'scenario': scs[i], 'events': traces[i]['ev'][:12]} for i in (0, 100, len(scs) - 1)]
 
     sub = systematic()[::2] + [gen_scenario(random.Random(seed + 7 + i), reliable=(i % 5 == 0)) for i in range(200)]
+    races = [sc for sc in systematic() if sc['policy'][1] < 150 and sc['ops'][1:3] in ([('send', 3), ('inject', (3,))],
+                                                                                  [('send', 1), ('sleep', 0.2)])]
     for name in sorted(MUTANTS):
-        mt = run_scenarios(sub, mutant=name)
+        mt = run_scenarios(races if name in ('reread_link', 'reread_patterns') else sub, mutant=name)
         for i, t in enumerate(mt):
             t['id'] = i + 1
         o2 = common.Outcome('C10', tier, seed)
@@ -461,7 +535,8 @@ def main(tier, seed, replay=None):
         if not mbad:
             raise common.MachineryError('monitor did not reject in-memory mutant %s' % name)
     import copy
-    t0 = copy.deepcopy(next(t for t in traces if sum(1 for e in t['ev'] if e['e'] == 'tx') >= 3 and not t['reliable']))
+    t0 = copy.deepcopy(next(t for t in traces if sum(1 for e in t['ev'] if e['e'] == 'tx') >= 3 and not t['reliable']
+                            and all(e['strict'] for e in t['ev'] if e['e'] == 'tx')))
     idx = [i for i, e in enumerate(t0['ev']) if e['e'] == 'tx'][1]
     t0['ev'][idx]['t'] -= 50
     t0['id'] = 1
